@@ -135,21 +135,14 @@ func (p *SNIProxy) ServeTCP(in net.Conn) error {
 		return err
 	}
 
-	errc := make(chan error, 2)
-	cp := func(dst io.Writer, src io.Reader, c gkm.Counter) {
-		errc <- copyBuffer(dst, src, c)
-	}
-
 	// we've received the ClientHello already
 	if t.RxCounter != nil {
 		t.RxCounter.Add(float64(n))
 	}
 
-	go cp(in, out, t.RxCounter)
 	// read from the buffered reader: it may already hold bytes which the
 	// client sent together with the ClientHello
-	go cp(out, tlsReader, t.TxCounter)
-	err = <-errc
+	err = tunnel(in, out, tlsReader, t.RxCounter, t.TxCounter)
 	if err != nil && err != io.EOF {
 		log.Print("[WARN]: tcp+sni:  ", err)
 		return err
